@@ -11,7 +11,7 @@ WT=/tmp/seedrun/$N; rm -rf $WT; mkdir -p /tmp/seedrun
 git -C /repo worktree add --detach $WT HEAD > /dev/null 2>&1 || { echo "worktree failed"; exit 2; }
 trap 'git -C /repo worktree remove --force $WT > /dev/null 2>&1; rm -rf /tmp/seedrun/$N.s' EXIT
 git -C $WT apply $D/patch.diff || { echo "SEED $N patch does not apply"; exit 2; }
-export VERIF_REPO=$WT VERIF_SCRATCH=/tmp/seedrun/$N.s
+export VERIF_REPO=$WT VERIF_SCRATCH=/tmp/seedrun/$N.s VERIF_SKIP_MC=1
 mkdir -p $VERIF_SCRATCH /verif/out/seedrun
 for P in $PROPS; do
   timeout 3600 /verif/tools/check $P --tier $TIER > /verif/out/seedrun/$N.$P.log 2>&1; rc=$?
